@@ -110,6 +110,19 @@ SUNITS['file_find_root'] = dict(file='src/File.cpp', locator=r'std::vector<Secti
     calls={'findSections': 'findSections_a'},
     region=dict(start=r'if\s*\(\s*filter\(root\)\s*\)', end=r'results\.insert\(results\.end\(\),\s*secs\.begin\(\),\s*secs\.end\(\)\);',
                 params=[('const util::Filter<Section>::type &', 'filter'), ('size_t', 'max_depth'), ('std::vector<Section> &', 'results'), ('Section &', 'root')]))
+def source_append(ctx, toks):
+    """result.insert(result.end(), matches.begin(), matches.end()) -> vec_Source_append(result, matches); the answer vector matches is the value type vec_SourceA"""
+    out = []; i = 0
+    while i < len(toks):
+        t = toks[i]
+        if t.k == 'id' and seq_at(toks, i + 1, ['.', 'insert', '(', t.t, '.', 'end', '(', ')', ',']) and seq_at(toks, i + 11, ['.', 'begin', '(', ')', ',', toks[i + 10].t, '.', 'end', '(', ')', ')']):
+            out.extend(tokenize('%svec_Source_append(%s, %s)' % (t.ws, t.t, toks[i + 10].t))); i += 22; fire(ctx, 'vector-append'); continue
+        out.append(t); i += 1
+    return out
+UNITS['block_find_probe'] = dict(file='src/Block.cpp', locator=r'std::vector<Source>\s+Block::findSources\s*\(', classes=['Source', 'SourceFilterFn', 'vec_SourceA'], pre_rules=[source_append],
+    calls={'findSources': 'findSources_a'},
+    region=dict(start=r'matches\s*=\s*probe\.findSources\(', end=r'result\.insert\(result\.end\(\),\s*matches\.begin\(\),\s*matches\.end\(\)\);',
+                params=[('const util::Filter<Source>::type &', 'filter'), ('size_t', 'max_depth'), ('const Source &', 'probe'), ('vec_SourceA &', 'matches'), ('std::vector<Source> &', 'result')]))
 BCL = ['Source', 'Section', 'Block', 'File', 'DataArray', 'Tag', 'MultiTag', 'nstring', 'EntFilter']
 def br(cls, meth, ret, byblock=False):
     f = 'src/%s.cpp' % cls
@@ -133,6 +146,7 @@ JOBS = [dict(name='source_bfs_step', bodies=['source_bfs_step'], enforce=['sourc
              expect_kinds=['postcondition', 'loop_invariant_base', 'loop_invariant_step'], timeout=300),
         dict(name='source_bfs_step[bounded]', bodies=['source_bfs_step'], enforce=['source_bfs_step'], replace=[], extra_c=EXTRA, loop_contracts=False, defines=['NIX_NO_LOOP_CONTRACTS', 'C20_BOUNDED=3'],
              cbmc_flags=['--unwind', '5', '--unwinding-assertions'], expect_kinds=['postcondition', 'unwind'], timeout=300, bounded='at most 3 children, loop unwound completely (twin without loop contract)')]
+JOBS.append(dict(name='block_find_probe', bodies=['block_find_probe'], enforce=['block_find_probe'], replace=[], extra_c=EXTRA + 'int gh_bs_calls, gh_bs_node, gh_bs_filter, gh_bs_appends, gh_bs_append_serial; size_t gh_bs_depth;\n', expect_kinds=['postcondition'], timeout=300))
 for j in JOBS: j['includes'] = ['c20_search.h']
 JOBS += [dict(name=fn, bodies=[fn], enforce=[fn], replace=[], extra_c=BEXTRA, includes=['c20_backref.h'], expect_kinds=['postcondition'], timeout=300) for fn in BUNITS]
 SEXTRA = ('SectionCont gh_front; int gh_pops, gh_filter_calls, gh_filter_node, gh_filter_ok, gh_res_pushes, gh_res_node, gh_expand_calls, gh_expand_node; size_t gh_expand_depth, gh_enq, gh_nchildren, gh_parent_depth; Section *gh_children; int gh_children_of;\n'
